@@ -17,6 +17,8 @@ CONSTANTS
   DevFetchOutUnchecked = TRUE
   DevFetchLateAuth = FALSE
   DevRateKeyHeader = FALSE
+  DevRefundOnRefusal = FALSE
+  RateBad = FALSE
   DevRawNewlines = FALSE
 INVARIANTS C27_NoEffect
 VIEW View
